@@ -53,6 +53,15 @@ CHECKS = {
             "checks that the lookup did not write into net.trafo.",
             "2W transformers only; table rows distinct by construction; tolerances 3e-5 abs + 20 ppm",
             "TLC-enumerated configurations; differential power flow compared by TLC", "§4 C31"),
+    "C22": ("model_checking",
+            "NetEditDef.tla is a relational model of the net (rows, typed references with cascade kinds, result rows) with the "
+            "edit API as constructive operations; TLC checks RefIntegrity/ResSubset on every history of the model, every "
+            "maximal history is replayed on a real net containing all four switch kinds, measurements, costs, groups and "
+            "controllers, and TLC evaluates RefIntegrity on the mechanical projection logged after EVERY step (this decides "
+            "C22) and compares the final state with the constructive model (divergence only).",
+            "alphabet NetEditDef!Ops (drop/reindex/continuous/fuse/select); depth 2 quick, 3 thorough; merge_nets/replace_* "
+            "not enumerated; controller targets read from element/element_index attributes",
+            "TLC-generated edit histories replayed; reference integrity of every logged state decided by TLC", "§4 C22"),
 }
 
 NOT_APPLICABLE = {
